@@ -121,7 +121,7 @@ def run_selftest(prop):
     from . import selftest
     t0 = time.time()
     try:
-        res = selftest.run(prop=prop, jobs=8, quiet=True)
+        res = selftest.run(prop=prop, jobs=10, quiet=True, focus=True)
     except Exception as e:  # never let the self-test crash the check
         return {"selftest_error": repr(e)}, []
     by = {}
